@@ -135,7 +135,7 @@ def kw(call, name, what):
 
 @_target('HydroGen', ['cgsmiles/pysmiles_utils.py', 'cgsmiles/resolve.py'])
 def gen_hydro(trees):
-    out = 'From Coq Require Import Floats.\n'
+    out = 'From Coq Require Import Floats.PrimFloat.\n'
     # ------------------------------------------------------------------ installed pysmiles
     pr = probe_pysmiles()
     rows = []
